@@ -1,9 +1,10 @@
 import Resgate.Proofs.GwPure
+import Resgate.Proofs.Release
 
 /-
 C09 — Cache entry lifecycle.  Theorems: the use-count / eviction-queue bookkeeping under
-well-formed use.  That every subscriber releases exactly once is NOT proved (false: known finding
-D4).
+well-formed use.  That every subscriber releases at most once is proved at the level of the cache entry
+(released_at_most_once; the double release D4 was repaired in /repo).
 -/
 
 namespace Resgate.C09
@@ -75,6 +76,16 @@ theorem evict_iff (count : Int) (pending mqSub : Bool) (u : Bool) :
 theorem used_entry_stays (count : Int) (pending mqSub : Bool) (h : 0 < count) :
     evictDecision count pending mqSub = none := by
   unfold evictDecision; cases pending <;> simp [h]
+
+/-- **A subscriber is released at most once** (the repaired `ResourceSubscription.Unsubscribe`, the
+    pure `Entry.release` the model's cache actor runs): a release takes effect iff the subscriber is
+    still registered with the resource, and after it took effect a second release of the same
+    subscriber finds nothing and gives nothing back — the double release behind the negative counts
+    and gauges (defect D4, fixed by `c027952`) cannot happen at this level any more. -/
+theorem released_at_most_once (e : Entry) (rs : Nat) (sub : SubRef) :
+    (e.release rs sub).isSome = (tget e.ress rs).subs.contains sub ∧
+    (e.dropSub rs sub).release rs sub = none :=
+  ⟨Gw.release_some_iff e rs sub, Gw.release_twice_is_once e rs sub⟩
 
 example : (⟨1, false⟩ : Cnt).Inv := by simp [Cnt.Inv]
 
